@@ -481,6 +481,44 @@ func checkPassphrases(env map[string]string) []Violation {
 
 var identRe = regexp.MustCompile(`^[a-z_]+$`)
 
+// forEachMisspelling enumerates, for every reflected key path, documents in which one segment is misspelled.
+func forEachMisspelling(f func(kp keyPath, misspelled []string, doc map[string]any)) {
+	paths := configKeyPaths()
+	siblingsOf := map[string]map[string]bool{}
+	for _, kp := range paths {
+		parent := strings.Join(kp.Segs[:len(kp.Segs)-1], ".")
+		if siblingsOf[parent] == nil {
+			siblingsOf[parent] = map[string]bool{}
+		}
+		siblingsOf[parent][kp.Segs[len(kp.Segs)-1]] = true
+	}
+	for _, kp := range paths {
+		val := sampleValue(kp.Type)
+		if _, err := parseDoc(docWith(kp.Segs, val), noEnv); err != nil {
+			continue
+		}
+		for i, seg := range kp.Segs {
+			if seg == "[]" || !identRe.MatchString(seg) {
+				continue
+			}
+			parent := strings.Join(kp.Segs[:i], ".")
+			if i > 0 && kp.Segs[i-1] == "overrides" {
+				continue
+			}
+			foreign := []string{}
+			for _, cand := range []string{"summary", "breaks", "key_name", "pkgbase", "abi_version", "interest", "owner", "preinstall", "pretrans", "dst", "priority"} {
+				if !siblingsOf[parent][cand] {
+					foreign = append(foreign, cand)
+				}
+			}
+			for _, bad := range misspellings(seg, siblingsOf[parent], foreign[:min(2, len(foreign))]) {
+				segs := append(append(append([]string(nil), kp.Segs[:i]...), bad), kp.Segs[i+1:]...)
+				f(kp, segs, docWith(segs, val))
+			}
+		}
+	}
+}
+
 func TestC16(t *testing.T) {
 	st := newStats("C16")
 	defer st.Flush()
@@ -517,6 +555,7 @@ func TestC16(t *testing.T) {
 		siblingsOf[parent][kp.Segs[len(kp.Segs)-1]] = true
 	}
 	nCtl, nMut := 0, 0
+	_ = siblingsOf
 	var firstViol vlist
 	report := func(c any, vs vlist) {
 		if left := st.Filter(vs); len(left) > 0 && len(firstViol) == 0 {
